@@ -124,7 +124,7 @@ def check_case(part, row, case):
         aidx = np.asarray(m.properties["asymmetric_unit_atoms"])
         f = np.asarray(m.positions) @ Minv
         diff = f - uc["frac_pos"][idx]
-        if np.abs(diff - np.rint(diff)).max() > 1e-6:
+        if not (np.abs(diff - np.rint(diff)).max() <= 1e-6):
             part.fail("not-lattice-translate:%s" % key_suffix, "a molecule atom is not a lattice translate of its unit-cell site in %s" % sk, case)
         if not np.array_equal(np.asarray(m.atomic_numbers), Zs[aidx]):
             part.fail("elements:%s" % key_suffix, "molecule elements differ from its parents' in %s" % sk, case)
@@ -133,23 +133,23 @@ def check_case(part, row, case):
         D0 = np.linalg.norm(cart0[aidx][:, None, :] - cart0[aidx][None, :, :], axis=2)
         dev = np.abs(D - D0).max()
         part.dev("internal_geometry_A", dev)
-        if dev > 1e-6:
+        if not (dev <= 1e-6):
             part.fail("broken-molecule:%s" % key_suffix, "internal geometry of a unit-cell molecule differs from its parent's by %.3g A in %s (molecule not whole)" % (dev, sk), case)
         com = np.asarray(m.center_of_mass) @ Minv
-        if com.min() < -1e-9 or com.max() >= 1 + 1e-9:
+        if not (com.min() >= -1e-9) or com.max() >= 1 + 1e-9:
             part.fail("com-outside:%s" % key_suffix, "centre of mass %s outside the reference cell in %s" % (np.round(com, 4), sk), case)
         im = model.get(tuple(np.round(com, 5)))
         if im is None:
             # tolerant search
             for k, v in model.items():
-                if np.abs(np.asarray(k) - com).max() < 1e-4:
+                if not (np.abs(np.asarray(k) - com).max() >= 1e-4):
                     im = v
                     break
         if im is not None:
             # same atoms
             a = sorted((int(z),) + tuple(np.round(p, 5)) for z, p in zip(m.atomic_numbers, f))
             b = sorted((int(Zs[i]),) + tuple(np.round(p, 5)) for i, p in zip(im["atoms"], im["frac"]))
-            if len(a) == len(b) and np.abs(np.array(a) - np.array(b)).max() < 1e-4:
+            if len(a) == len(b) and not (np.abs(np.array(a) - np.array(b)).max() >= 1e-4):
                 matched += 1
     if matched != want_n:
         part.fail("model-mismatch:%s" % key_suffix, "only %d of %d unit-cell molecules coincide with the exact symmetry images in %s" % (matched, want_n, sk), case)
@@ -207,7 +207,7 @@ def check_case(part, row, case):
         else:
             for e, (d, off) in want.items():
                 ld, loff = lib_edges[e]
-                if abs(ld - d) > 1e-6 or tuple(loff) != tuple(off):
+                if not (abs(ld - d) <= 1e-6) or tuple(loff) != tuple(off):
                     part.fail("connectivity-offset:%s" % key_suffix, "edge %s: length/cell offset (%.4f,%s) differs from model (%.4f,%s) in %s"
                               % (e, ld, loff, d, off, sk), case)
                     break
@@ -375,7 +375,7 @@ def tolerance_cases(part, row, seed):
                         continue
                     dd = sorted(np.linalg.norm(P[i] - P[o]) for i in range(3) if i != o)
                     target = want if name.startswith("stretched") else np.linalg.norm(cart[1] - cart[0])
-                    if abs(dd[0] - target) > 1e-6 or abs(dd[1] - target) > 1e-6:
+                    if not (abs(dd[0] - target) <= 1e-6) or not (abs(dd[1] - target) <= 1e-6):
                         part.fail("bond-tolerance:not-whole:" + name, "a molecule of %s is not whole: O-H distances %s, expected %.4f" % (sk, np.round(dd, 4), target), case)
             part.outcome(("tolerance", name, len(mols)))
     part.nstates(8)
